@@ -1,6 +1,6 @@
 // C05 — codec::from_versioned_bytes dispatch; attached to mithril-stm/src/codec.rs
 use super::*;
-include!("common.inc");
+use crate::codec::verif_c05_stubs::*;
 
 /// first byte 1 => CBOR decoder on the rest, anything else (including empty input) => legacy decoder on the whole input
 #[kani::proof]
